@@ -166,7 +166,8 @@ def cases_for(tier):
              '#[educe(Debug(bound(*, *)))]', '#[educe(Debug(bound = "*"))]', '#[educe(Debug(bound = "T:"))]', '#[educe(Debug(method()))]', '#[educe(Debug(method = ""))]',
              '#[educe(Debug(name = "a b"))]', '#[educe(Debug(name = "1"))]', '#[educe(Debug = "")]', '#[educe(Debug = 1)]', "#[educe(Debug = 'c')]", '#[educe(PartialOrd(rank = "x"))]',
              '#[educe(PartialOrd(rank = 99999999999999999999999))]', '#[educe(PartialOrd(rank = -99999999999999999999999))]', '#[educe(PartialOrd(rank = 1.5))]', '#[educe(Debug(unsafe))]',
-             '#[educe(unsafe)]', '#[educe(Debug::X)]', '#[educe(::Debug)]', '#[educe(r#Debug)]', '#[educe(Debug(r#name = X))]', '#[educe(Debug(name = r#type))]']
+             '#[educe(unsafe)]', '#[educe(Debug::X)]', '#[educe(::Debug)]', '#[educe(::Debug, ::Debug)]', '#[educe(::Deref)]', '#[educe(::Hash(ignore))]', '#[educe(::Clone(bogus))]', '#[educe(::Default, Default)]',
+             '#[educe(::core::fmt::Debug)]', '#[educe(self::Debug)]', '#[educe(crate::Debug, Debug)]', '#[educe(::Into(u8), ::Into(u8))]', '#[educe(::PartialOrd(rank = 1))]', '#[educe(r#Debug)]', '#[educe(Debug(r#name = X))]', '#[educe(Debug(name = r#type))]']
     hosts = [('type', '#[derive(Educe)]\n{F}\nstruct Ty {{ a: u8 }}\n'), ('type-u', '#[derive(Educe)]\n{F}\nunion Ty {{ a: u8 }}\n'), ('type-e', '#[derive(Educe)]\n{F}\nenum Ty {{ A(u8) }}\n'),
              ('field', '#[derive(Educe)]\n#[educe(Debug, Hash, PartialEq, PartialOrd, Default, Into(u8))]\nstruct Ty {{ {F} a: u8 }}\n'),
              ('variant', '#[derive(Educe)]\n#[educe(Debug, Hash, PartialEq, PartialOrd, Default)]\nenum Ty {{ {F} A(u8) }}\n'),
